@@ -17,6 +17,10 @@ IMPLEMENTED = {
             'deterministic simulation of the file system under the real write path: exhaustive crash-point enumeration (process death before every I/O step, torn variant of every write, short writes) per sampled case, recovery run after each crash; plus a cross-interpreter determinism sweep (hash seeds, histories)',
             'For every sampled (cdef, route, old target state, buffering) case, every I/O step of the real regeneration is enumerated as a crash point and atomicity, recovery and idempotence are checked; cases are sampled, crash points per case are exhaustive. Determinism is checked by digest equality across fresh interpreters.',
             'Crash = process death with the OS file view preserved (no power loss / fsync modelling); rename atomic; SimFS models open/read/write/close/rename/unlink/makedirs as used by cffi.recompiler; the C compiler is never run.'),
+    'C21': ('H', 'exploration', 'DESIGN.md 3.6',
+            'deterministic simulation: single-client history simulator with the garbage collector as an injected event, explicit reference drops, gremlin finalizers acting during collection, injected allocator/destructor/initializer/exporter failures; reference-graph model checked after every operation; glibc malloc poisoning',
+            'Seeded search over operation histories with GC events, reference cycles and injected failures against a reference-graph model that knows exactly when each object must be alive, released or dead; checks destructor/free call counts, release idempotence, export locks, memory validity and handle identity after every op.',
+            'CPython reference-counting semantics (acyclic objects die at drop, cyclic garbage at the next collect); harness fakes for allocators/destructors/exporters; PEP 688 exporters are kept alive by the harness because CPython 3.12.1 itself crashes when their inner memoryview is collected while exported.'),
 }
 
 PENDING = {
